@@ -361,13 +361,13 @@ def exInit : St := init 4 3000000000000000000000000 4000 2 14400 5000 4 10000000
     cancelled while pending.  Every fee has left escrow exactly once. -/
 example :
     let s := run exInit
-      [.setEnergy 1 16, .setEnergy 2 4, .setEnergy 3 4, .setEnergy 4 9,
+      [.setEnergy 1 36, .setEnergy 2 9, .setEnergy 3 5, .setEnergy 4 16,
        .propose 1 3000000000000000000000000, .propose 4 3000000000000000000000000,
        .propose 1 3000000000000000000000000, .propose 2 3000000000000000000000000,
-       .cancel 2 4, .advance 2, .setTotal 60,
-       .vote 1 1 .up, .vote 2 1 .veto, .vote 3 1 .abstain,       -- up 4, veto 2 = ⌊8/3⌋, quorum 24 = 40 % of 60
-       .vote 1 2 .up, .vote 4 2 .veto,                            -- veto 3 > ⌊7/3⌋
-       .vote 2 3 .up, .vote 3 3 .down,                            -- up 2 = ⌊4/2⌋
+       .cancel 2 4, .advance 2, .setTotal 125,
+       .vote 1 1 .up, .vote 2 1 .veto, .vote 3 1 .abstain,       -- up 6 > ⌊11/2⌋, veto 3 = ⌊11/3⌋, quorum 50 = 40 % of 125
+       .vote 1 2 .up, .vote 4 2 .veto,                            -- veto 4 = ⌊10/3⌋ + 1
+       .vote 2 3 .up, .vote 4 3 .down,                            -- up 3 = ⌊7/2⌋
        .setTotal 1000000, .advance 14402,
        .withdraw 1 1, .withdraw 3 2, .withdraw 1 3]
     s.status 1 = .succeeded ∧ s.status 2 = .vetoed ∧ s.status 3 = .defeated ∧ s.status 4 = .none ∧
@@ -381,7 +381,8 @@ example :
     let s := run exInit
       [.setEnergy 1 16, .setEnergy 2 4, .propose 1 3000000000000000000000000, .advance 2,
        .vote 1 1 .up, .advance 14402]
-    (vote s 2 1 .up).isSome = false ∧ (withdraw s 2 1).isSome = false ∧
+    (vote s 2 1 .up).isSome = false ∧ (vote (run exInit [.setEnergy 1 16, .propose 1 3000000000000000000000000,
+       .advance 2, .vote 1 1 .up]) 1 1 .down).isSome = false ∧ (withdraw s 2 1).isSome = false ∧
     (cancel s 1 1).isSome = false ∧ (withdraw s 1 1).isSome = true ∧
     (withdraw (run s [.withdraw 1 1]) 1 1).isSome = false := by
   decide +kernel
